@@ -22,3 +22,12 @@ Definition run_cidfont (x : cidfont * list Z) : cv :=
   let w := cid_width f in let d := cid_disp f in
   CL [CL (map (fun c => cq (w c)) cids);
       CL (map (fun c => let '(vx, vy) := d c in CL [cvo cq vx; cq vy]) cids)].
+
+(* TrueTypeFont.create_unicode_map over the bytes of a font program, then the text of the given glyphs *)
+From PdfV Require Import Model.TrueType.
+Definition run_ttf (x : list Z * list Z) : cv :=
+  let '(f, gids) := x in
+  match create_unicode_map f with
+  | None => CZ (-1)
+  | Some m => CL (map (fun g => cvo cstr (umap_get m g)) gids)
+  end.
